@@ -30,6 +30,7 @@ enum ObjKind : uint8_t { OK_GLOBAL, OK_HEAP, OK_STACK, OK_FUNC };
 struct Obj {
   uint32_t id; uint64_t base; uint64_t size; ObjKind kind; bool readonly;
   Node* freed;                         // condition (within the owning state) under which the object has been freed
+  Node* born = nullptr;                // path condition under which the object was allocated (used to tell the occupants of a reused address apart)
   std::vector<Cell> cells;             // sorted by off, non-overlapping
   const llvm::Function* fn;
   const char* name;
